@@ -87,9 +87,17 @@ CHECKS = {
             'About 2.5k histories of up to 15 steps per quick run (80k thorough); invariants on raw output, line view, queue, '
             'per-execution record, values returned by input().',
             'Prompt echo suffix and exhausted-queue default are calibrated on a probe; stderr is excluded.', '3/C15'),
+    'C04': ('Fault enumeration: failure source x position x entry point x threaded x tracer style product (complete in '
+            'thorough, covering subset in quick) plus Hypothesis splices into random CS1 programs; oracle = call returns, '
+            'exception class, exactly one runtime feedback, marked student line',
+            'About 4k injected failures per quick run, the full ~25k product in thorough (exhaustive within the listed '
+            'axes). Every Exception subclass of builtins and 35 hand-built hostile sources are covered.',
+            'os._exit / native crashes / memory exhaustion are outside an exec-based sandbox; class of exit()/quit()/blocked '
+            'features is not asserted; RecursionError line not asserted.', '3/C04'),
 }
 
 NOT_YET = {}
+LEVELS = {'C04': 'fault_enumeration'}
 
 
 def main():
@@ -113,7 +121,7 @@ def main():
             'evidence_file': 'evidence/%s.json' % pid,
             'replay_cmd_template': './check %s --replay {path}' % pid,
             'engine': 'hypothesis+enumeration',
-            'level_claimed': {'category': 'exploration', 'text': text, 'design_ref': 'DESIGN.md section ' + ref},
+            'level_claimed': {'category': LEVELS.get(pid, 'exploration'), 'text': text, 'design_ref': 'DESIGN.md section ' + ref},
             'level_note': note,
             'technique': tech,
         })
